@@ -56,6 +56,10 @@ def run(P, rep, tier):
     from . import c19
 
     rep.attempt(c19.r1_chunk_loop, P, rep, ctx)
+    # "after patches ... and reopen": reopening by name finds every container the writer side names (C03.R3)
+    from . import c03
+
+    rep.attempt(c03.r3_name_language, P, rep, ctx)
     rep.floor("C17.R1", 4)
     rep.floor("C17.R2", 5)
     rep.floor("C17.R3", 7)
